@@ -16,7 +16,7 @@ C == Traces[tid].const
 ToSet(s) == {s[i] : i \in DOMAIN s}
 P == [proto |-> C.proto, nRetry |-> C.nRetry, clean |-> C.clean,
       cleanRet |-> [kind |-> C.cleanRet.kind, errno |-> C.cleanRet.errno, val |-> C.cleanRet.val], doc |-> ToSet(C.doc),
-      gone |-> C.gone]
+      gone |-> C.gone, noraise |-> C.noraise]
 
 TInit == tid \in 1..Len(Traces) /\ l = 1 /\ st = [StInit EXCEPT !.tgt = ~P.gone]
 
